@@ -117,3 +117,11 @@ def _replay_conc_sessions(ctx, fl):
 
 
 REPLAYERS["conc-sessions"] = _replay_conc_sessions
+
+
+def _replay_conc_two_devices(ctx, fl):
+    from units import conc
+    return conc.replay_conc_two_devices(ctx, fl)
+
+
+REPLAYERS["conc-two-devices"] = _replay_conc_two_devices
